@@ -144,9 +144,9 @@ func init() {
 		NumCases: func(t string) int {
 			n := len(c03Shipped())
 			if t == "thorough" {
-				return n + 6000
+				return n + 30000
 			}
-			return n + 400
+			return n + 1500
 		},
 		CaseTimeout: 8 * time.Minute,
 		Run:         runC03,
